@@ -76,6 +76,17 @@ LockProgs(k) ==
       <<Forall("E", X, "auto", <<Let("X", Init0(k))>>)>>,
       <<Forall("E", X, "auto", <<Do(Mem(X, "insert", <<I(0), Args(k)[1]>>))>>)>> }
   ELSE {}
+\* the iterator of a forall stands for the element: assigning it anything that is not exactly of the element's type
+\* (another tuple structure, another table dimension, the other numeric type, a null of another type) is refused,
+\* directly and through an opaque route; a value of the right type is written through
+IterProgs(k) ==
+  IF k \in {"ti", "td", "ts", "tu", "tt"} THEN
+    \* (an opaque value is refused for a type-constrained variable when the text is compiled, whatever it would be;
+    \*  a null tuple for an element with a structure is not pinned: neither is generated)
+    LET ok == {a \in DOMAIN Args(k) : ~(k = "tu" /\ Args(k)[a] = Call("tup", <<>>))} IN
+    { <<Forall("E", X, "auto", <<Let("E", Args(k)[a])>>)>> : a \in ok }
+    \cup { <<Forall("E", X, "desc", <<Let("Y", V("E")), Let("E", Args(k)[a]), Let("E", V("Y"))>>)>> : a \in ok }
+  ELSE {}
 
 \* tuple ranks beyond the machine word (the rank is a coded value, checked at compile time or at run time)
 RankProgs == { <<Let("Y", ItemRaw(X, t))>> : t \in {"4294967297", "4294967296", "99999999999999999999", "18446744073709551617"} }
@@ -105,7 +116,7 @@ Init == p \in UNION {LET ops == TLCEval(Ops(k)) IN {[k |-> k, ops |-> <<ops[j]>>
               \cup (IF H >= 2 THEN UNION {LET red == TLCEval(Reduced(k)) IN {[k |-> k, ops |-> <<red[i], red[j]>>] : i \in DOMAIN red, j \in DOMAIN red} : k \in Kinds} ELSE {})
               \* thorough tier: all triples of the reduced pool
               \cup (IF H >= 3 THEN UNION {LET red == TLCEval(Reduced(k)) IN {[k |-> k, ops |-> <<red[i], red[j], red[q]>>] : i \in DOMAIN red, j \in DOMAIN red, q \in DOMAIN red} : k \in Kinds} ELSE {})
-              \cup UNION {{[k |-> k, ops |-> <<x[1]>>, lock |-> TRUE] : x \in LockProgs(k)} : k \in Kinds}
+              \cup UNION {{[k |-> k, ops |-> <<x[1]>>, lock |-> TRUE] : x \in LockProgs(k) \cup IterProgs(k)} : k \in Kinds}
               \cup UNION {{[k |-> k, ops |-> x, lock |-> TRUE] : x \in NestLock(k)} : k \in Kinds}
               \cup {[k |-> "tup", ops |-> x] : x \in RankProgs} \cup {[k |-> "tup", ops |-> x, key |-> "struct"] : x \in StructProgs}
 Next == UNCHANGED p
